@@ -123,6 +123,10 @@ fn special_bits(rng: &mut Rng, ty: L::Ty) -> u64 {
     }
 }
 
+fn mix_seed(a: u64, b: u64) -> u64 {
+    crate::prng::mix(crate::prng::mix(0x7EA1, a), b)
+}
+
 fn frame_event(
     rng: &mut Rng,
     kind: Kind,
@@ -133,9 +137,16 @@ fn frame_event(
     port: u8,
     follower: bool,
 ) -> Vec<u8> {
-    let size = L::payload_size(kind, v) + extra;
+    let base = L::payload_size(kind, v);
+    let size = base + extra;
     let mut ev = vec![0u8; size + 1];
-    rng.fill(&mut ev[1..]);
+    // known part from the frame's stream; extra trailing bytes (newer-version payloads) from a
+    // separate stream so that a twin recording without them has identical known fields
+    rng.fill(&mut ev[1..1 + base]);
+    if extra > 0 {
+        let mut xr = Rng::new(mix_seed(id as u64, L::code(kind) as u64 ^ ((port as u64) << 8) ^ ((follower as u64) << 16)));
+        xr.fill(&mut ev[1 + base..]);
+    }
     ev[0] = L::code(kind);
     if special_rate > 0 {
         for fld in L::fields(kind) {
@@ -242,7 +253,10 @@ pub fn build_start(spec: &RecorderSpec) -> (Vec<u8>, StartStrings) {
     let base = L::start_size(v);
     let mut rng = Rng::new(spec.start_pseed);
     let mut s = vec![0u8; 1 + base + extra];
-    rng.fill(&mut s[1..]);
+    rng.fill(&mut s[1..1 + base]);
+    if extra > 0 {
+        Rng::new(mix_seed(spec.extras.trailing_pseed, 0x36)).fill(&mut s[1 + base..]);
+    }
     s[0] = L::CODE_START;
     s[VERSION] = spec.version[0];
     s[VERSION + 1] = spec.version[1];
@@ -319,7 +333,10 @@ pub fn build_end(spec: &RecorderSpec) -> Vec<u8> {
     let base = L::end_size(v);
     let mut rng = Rng::new(spec.end_pseed);
     let mut e = vec![0u8; 1 + base + extra];
-    rng.fill(&mut e[1..]);
+    rng.fill(&mut e[1..1 + base]);
+    if extra > 0 {
+        Rng::new(mix_seed(spec.extras.trailing_pseed, 0x39)).fill(&mut e[1 + base..]);
+    }
     e[0] = L::CODE_END;
     e[L::ge::METHOD] = *rng.pick(&[0u8, 1, 2, 3, 7]);
     if base >= 2 {
